@@ -292,6 +292,14 @@ fn gen_unamb(g: &mut Gen, kind: i128, year_abs_lt: i128) -> Vec<Item> {
             (Item::Field(pc, pw), Item::Field(c, _)) => pc != c && match *pc {
                 'y' => *pw >= 5, 'M' | 'd' | 'w' | 'H' | 'K' | 'h' | 'k' | 'm' | 's' => *pw == 2, 'D' => *pw == 3, 'n' => true, _ => false },
             _ => false };
+        // a zone followed by a colon that no digit follows (quoted ": " or ":" + letter) is still unambiguous: +hh:mm[:ss] reads
+        // seconds only when a digit follows the second colon
+        let prev_zone = i > 0 && matches!(fields[i - 1], Item::Field('X', _) | Item::Field('x', _));
+        if prev_zone && !glued && g.rng.chance(1, 3) {
+            out.push(Item::Quoted(g.rng.pick(&[": ", ":", ":T", ": at "]).to_string()));
+            if g.rng.chance(1, 2) { out.push(Item::Lit(' ', 1)); } else { out.push(Item::Lit('|', 1)); }
+            last_sep = '|';
+        } else
         if i > 0 && !glued {
             if g.rng.chance(1, 6) { out.push(Item::Quoted(g.rng.pick(&[" at ", " at ", "\u{5e74}", " \u{e0}s ", " \u{2013} ", "T\u{1f600}"]).to_string())); last_sep = '\''; }
             else { let mut c = *g.rng.pick(&seps); if c == last_sep { c = if c == '|' { '_' } else { '|' }; }
@@ -309,6 +317,8 @@ fn gen_unamb(g: &mut Gen, kind: i128, year_abs_lt: i128) -> Vec<Item> {
         if g.rng.chance(1, 6) { let c = *g.rng.pick(&edge);
             let after_zone = matches!(out.last(), Some(Item::Field('X', _)) | Some(Item::Field('x', _)));
             if !(after_zone && c == ':') { out.push(Item::Lit(c, 1)); } }
+        // a zone at the very end followed by a colon (no digit follows)
+        if matches!(out.last(), Some(Item::Field('X', _)) | Some(Item::Field('x', _))) && g.rng.chance(1, 4) { out.push(Item::Quoted(":".to_string())); }
     }
     out
 }
